@@ -1,4 +1,4 @@
-\* sensitivity (plausible bug): connect dispatched after the first poll of the stream
+\* sensitivity (plausible bug): connect dispatched only after the first poll of the stream
 CONSTANTS
   c1 = c1
   c2 = c2
@@ -18,5 +18,6 @@ CONSTANTS
   Dev = {"LateConnect"}
 INIT Init
 NEXT Next
+VIEW MCView
 INVARIANTS DispatchInvs
 CHECK_DEADLOCK FALSE
